@@ -129,7 +129,18 @@ def walk_features(prog, f, mode):
     hedges = switch_edges(body, tr, h)
     lv = canon(hedges[0].cond) if hedges else ""
     # W1: start = parent() of the looked-up node, step = parent() of the current one
-    m = re.match(r"^phi\(Node::parent\(&\(rec as Some\)\.0\) \| Option::and_then\(HashMap::get\(&\*\*arg:exec\.graph\.syntax_nodes, &(.*)\), \w+::\{closure#\d+\}\{\}\)\)$", lv)
+    W1_PAT = r"^(?:Try::branch\()?phi\(Node::parent\(&\(rec as (?:Some|Continue)\)\.0\) \| Option::and_then\(HashMap::get\(&\*\*arg:exec\.graph\.syntax_nodes, &(.*?)\), [\w:]+::\{closure#\d+\}\{\}\)\)\)?$"
+    m = re.match(W1_PAT, lv)
+    if not m:
+        # the test of the walk variable need not sit in the loop header (`loop { let node = ancestor?; .. }`)
+        for b2 in sorted(bl):
+            for g2 in switch_edges(body, tr, b2):
+                m2 = re.match(W1_PAT, canon(g2.cond))
+                if m2:
+                    m, lv = m2, canon(g2.cond)
+                    break
+            if m:
+                break
     if m:
         own = m.group(1)
         feats["W1"] = "walk: start = syntax_nodes[own index].parent(), step = parent()"
